@@ -8,6 +8,8 @@ import (
 	"reflect"
 	"strconv"
 
+	"github.com/philpearl/plenc"
+	pnull "github.com/philpearl/plenc/null"
 	"github.com/philpearl/plenc/plenccodec"
 
 	"verifharness/core"
@@ -178,6 +180,21 @@ func c16Case(c *core.Ctx, idx int) {
 	r := c.Rand(idx)
 	cfg := instCfgs()[idx%4]
 	p := instNew(cfg)
+	switch idx % 5 {
+	case 1:
+		// the JSON codecs registered before the default codecs (round 12: k16)
+		p = &plenc.Plenc{ProtoCompatibleArrays: cfg.ProtoArrays, ProtoCompatibleTime: cfg.ProtoTime}
+		p.RegisterCodec(model.JSONMapT, plenccodec.JSONMapCodec{})
+		p.RegisterCodec(model.JSONArrayT, plenccodec.JSONArrayCodec{})
+		p.RegisterDefaultCodecs()
+		pnull.AddCodecs(p)
+		rec.Count("json_codecs_registered_before_defaults", 1)
+	case 3:
+		// ... or the default codecs registered once more afterwards
+		p.RegisterDefaultCodecs()
+		pnull.AddCodecs(p)
+		rec.Count("defaults_registered_again", 1)
+	}
 	name := cfgName(cfg)
 	vg := &gen.VG{R: r, C: cfg, Budget: 400, ValidUTF8: true}
 	mc, err1 := p.CodecForType(model.JSONMapT)
